@@ -12,6 +12,7 @@ import Circomspect.Model.UniqueVars
 import Circomspect.Model.Ssa
 import Circomspect.Model.Propagate
 import Circomspect.Model.SignalAssign
+import Circomspect.Model.Includes
 import Driver.Sexp
 
 namespace Driver
@@ -585,6 +586,31 @@ def sigassignCmd (args : List String) : String :=
       | .unnecessary l key => s!"CS0013:{l.1}-{l.2}:{key}:"))
   | _ => "bad-op"
 
+/-- `includes <inputs csv|-> <libs|-> <files>`:
+    libs `;`-separated `d:key=file,...` / `f:target:name`; files `;`-separated `<ok>:<rel|->/<dot>/<sep>/<key>,...` -/
+def includesCmd (args : List String) : String :=
+  match args with
+  | [ins, libs, files] =>
+    let nat (t : String) : Nat := t.toNat?.getD 0
+    let inputs : List Nat := if ins == "-" then [] else (ins.splitOn ",").map nat
+    let parseLib (t : String) : Includes.Lib := match t.splitOn ":" with
+      | ["d", es] => .dir ((es.splitOn ",").filterMap (fun e => match e.splitOn "=" with
+          | [k, f] => some (nat k, nat f) | _ => none))
+      | ["f", t, nm] => .file (nat t) (nat nm)
+      | _ => .dir []
+    let parseInc (t : String) : Option Includes.Inc := match t.splitOn "/" with
+      | [rel, dot, sep, key] => some { rel := if rel == "-" then none else some (nat rel), dot := dot == "1", sep := sep == "1", key := nat key }
+      | _ => none
+    let parseFile (t : String) : Includes.FileInfo := match t.splitOn ":" with
+      | [ok, incs] => { ok := ok == "1", includes := if incs == "" then [] else (incs.splitOn ",").filterMap parseInc }
+      | _ => { ok := false, includes := [] }
+    let fs : Includes.Fs := { files := (files.splitOn ";").map parseFile, libs := if libs == "-" then [] else (libs.splitOn ";").map parseLib }
+    let st := Includes.parseFiles fs inputs
+    let stable := decide (Includes.run fs (fs.n + 5) (Includes.init inputs) = st)
+    let users := st.reads.filter (Includes.isUserInput inputs)
+    s!"wf={if fs.wf inputs then 1 else 0} stack={st.stack.length} stable={if stable then 1 else 0} reads={showCsv st.reads} users={showCsv users} errors={",".intercalate (st.errors.map (fun e => s!"{e.1}.{e.2}"))}"
+  | _ => "bad-op"
+
 def showIStmt : CfgLift.IStmt → String
   | .simple l => s!"s{l.1}-{l.2}"
   | .branch l t f => s!"i{l.1}-{l.2}:{t}:{match f with | some f => toString f | none => "-"}"
@@ -628,6 +654,7 @@ def handle (line : String) : String :=
   | "c11" :: args => c11Cmd args
   | "runner" :: args => runnerCmd args
   | "sigassign" :: args => sigassignCmd args
+  | "includes" :: args => includesCmd args
   | "dom" :: args => domCmd false args
   | "strip" :: args => stripCmd false args
   | "stripspec" :: args => stripCmd true args
